@@ -98,8 +98,16 @@ class Probe(SourceProxy):
             return Total(sel, close=self._make_emitter(sel))
 
     def _install_tooling(self):
-        for selector in self._selectors:
-            autotool(selector)
+        done = []
+        try:
+            for selector in self._selectors:
+                autotool(selector)
+                done.append(selector)
+        except Exception:
+            # One of the selectors is refused: undo the others
+            for selector in done:
+                autotool(selector, undo=True)
+            raise
 
     def _uninstall_tooling(self):
         for selector in self._selectors:
